@@ -599,6 +599,7 @@ def roundtrip_results_file(record, workdir: str = None) -> dict:
 
 # ---- random universes (abstract units) ------------------------------------------------------------------------
 def spans_origin(loc: dict) -> bool:
+    """ origin-spanning or in several exons (anything that is not one plain span) """
     return len(loc["parts"]) > 1
 
 
@@ -647,9 +648,29 @@ def random_universe(rng) -> dict:
             core = span(max(1, length // 6))
             areas.append({"kind": "proto", "core": core, "extent": grow(core, rng.randrange(0, max(1, length // 5) + 1)),
                           "product": rng.choice(products), "pay": rng.choice([0, 0, 1, 2])})
+    def exons(strand):
+        """ two or three exons of one unit with introns of one or two units; on a ring the walk may pass the origin, inside an
+            intron or between two exons """
+        sizes = [1] * rng.choice([2, 2, 3])
+        gaps = [rng.choice([1, 1, 2]) for _ in sizes[1:]]
+        total = sum(sizes) + sum(gaps)
+        if total > length - 1:
+            return span(2, strand)
+        start = rng.randrange(0, length if circ else length - total + 1)
+        parts, pos = [], start
+        for i, size in enumerate(sizes):
+            parts.append([pos % length, pos % length + size])
+            pos += size + (gaps[i] if i < len(gaps) else 0)
+        if strand == -1:
+            parts = parts[::-1]
+        return {"parts": parts, "strand": strand}
+
     genes = []
     for _ in range(rng.randrange(1, 6)):
-        loc = span(rng.choice([1, 2, 2, 3]), rng.choice([1, -1]))
+        if rng.random() < 0.25:
+            loc = exons(rng.choice([1, -1]))
+        else:
+            loc = span(rng.choice([1, 2, 2, 3]), rng.choice([1, -1]))
         if any(g["loc"] == loc or {tuple(p) for p in g["loc"]["parts"]} == {tuple(p) for p in loc["parts"]} for g in genes):
             continue
         # sub-gene features and codon_start of origin-spanning genes are C09's subject (P9): those payloads stay on ordinary genes
@@ -829,7 +850,7 @@ MC_INVARIANTS = ["ExtractsWellFormed", "ShiftPreservesBases", "ShiftIsRingShift"
                  "MembersAreInside"]
 
 
-def mc_config(max_areas: int, universes=(1, 2, 3), faithful: bool = True, invariants=None, stutter: bool = True) -> str:
+def mc_config(max_areas: int, universes=(1, 2, 3, 4), faithful: bool = True, invariants=None, stutter: bool = True) -> str:
     checks = "\n".join(f"INVARIANT {name}" for name in (MC_INVARIANTS if invariants is None else invariants))
     if stutter:
         checks += "\nPROPERTY RoundTripIsStutter"
